@@ -31,14 +31,14 @@ import wf_run
 from cluster import Cluster
 from common import Check, Infra, LeanDriver, VERIF, canon_unordered, rng, to_wire
 
-KINDS = ["raise-before", "raise-after", 404, 409, 500, "hang"]
+KINDS = ["raise-before", "raise-after", 404, 409, 500, "hang", 403, 429, "no-response"]
 EPS = 1e-6
 ERR_REASONS = ("Wait", "Failure")
 
 
 # --------------------------------------------------------------------------- cases
 
-MUTABLE_MODES = ["create", "create", "patch", "patch", "recreate", "match-ok", "get-ok", "get-retry"]
+MUTABLE_MODES = ["create", "create", "patch", "patch", "recreate", "delete", "match-ok", "get-ok", "get-retry"]
 
 
 def mutable_sites(case):
@@ -85,7 +85,7 @@ def gen_case(r):
             mode = r.choice(MUTABLE_MODES)
             cls, calls, _ = gen_wf.RF_MODES[mode]
             f["rf"]["mode"], f["rf"]["calls"] = mode, list(calls)
-            f["c"], f["d"] = cls, (gen_wf.LOAD_RETRY if mode == "get-retry" else r.choice([3, 11, 45]))
+            f["c"], f["d"] = cls, (gen_wf.LOAD_RETRY if mode in ("get-retry", "delete") else r.choice([3, 11, 45]))
     return case
 
 
@@ -97,7 +97,8 @@ def fn_wire(f):
     if rf:
         w["rf"] = {"prefix": rf["prefix"], "nameKey": rf["nameKey"], "pre": rf["pre"],
                    "readonly": rf["mode"] in gen_wf.READONLY_MODES,
-                   "policy": "recreate" if rf["mode"] == "recreate" else "patch"}
+                   "policy": "recreate" if rf["mode"] == "recreate" else "patch",
+                   "deleteIfExists": rf["mode"] == "delete"}
     return w
 
 
@@ -262,6 +263,70 @@ def dependents(case, label):
     return out
 
 
+def fn_of_resource(case, name):
+    """the Function a resource name belongs to (names are `<prefix>` or `<prefix>.<item>`)"""
+    best = None
+    for fid, f in case["fns"].items():
+        rf = f.get("rf")
+        if rf and not rf["pre"] and (name == rf["prefix"] or str(name).startswith(rf["prefix"] + ".")):
+            if best is None or len(rf["prefix"]) > len(best["rf"]["prefix"]):
+                best = f
+    return best
+
+
+def natural_404(entry, before) -> bool:
+    """a 404 injected at the GET of an object that really is absent: exactly what the API answers anyway"""
+    return entry["fault"] == 404 and entry["method"] == "GET" and obj_key(entry["name"]) not in before
+
+
+KNOWN_CLASS = "believable-404-on-delete-if-exists"
+# what the oracle says about a pass in which a deleteIfExists Function believed a 404 (containment only; anything
+# else — a pass that raises, runs late, does not recover — is NOT part of the finding)
+KNOWN_WHATS = (
+    r"is reported 'Ready', not Retry / PermFail",
+    r"/Ready although one of its API calls failed",
+    r"needs the failed step \S+ but (issued API requests|is reported Ready)",
+    r"overall outcome is '\w+' although step \S+ failed",
+    r"is neither as before the pass nor as a fault-free pass leaves it",
+)
+
+
+def replay_sequence(case, seq):
+    """(violations, fault sites) of one fault sequence, the oracle alone"""
+    info = {"sites": []}
+    found = sweep_case(Check("C09", "classify"), None, rng("classify"), case, "quick", "classify",
+                       only=[seq] if seq and seq.get("faults") else None, info=info)
+    return found, info["sites"]
+
+
+def in_known_class(vcase) -> bool:
+    """KNOWN FINDING `believable-404-on-delete-if-exists` (KNOWN_FINDINGS.txt): the failing input is ONE faulty pass
+    whose fault is a 404 on the GET of a deleteIfExists Function while the object is in the cluster, and everything the
+    oracle reports is the missing containment of that pass.  Nothing broader: a 404 on any other call, any other kind on
+    that GET, the object absent, a second faulty pass, or any other complaint (not returning, running late, not
+    recovering) is an ordinary violation."""
+    try:
+        case, seq = vcase.get("case"), vcase.get("faults")
+        if not isinstance(case, dict) or not isinstance(seq, dict) or len(seq.get("faults") or []) != 1:
+            return False
+        if seq["faults"][0][1] != 404:
+            return False
+        found, sites = replay_sequence(case, seq)
+        if not found or len(sites) != 1 or sites[0] is None:
+            return False
+        site = sites[0]
+        if site["method"] != "GET" or site["kind"] != 404 or not site["present"]:
+            return False
+        f = fn_of_resource(case, site["name"])
+        if not f or f["rf"]["mode"] != "delete":
+            return False
+        return all(any(re.search(p, what) for p in KNOWN_WHATS) for _, what in found)
+    except Infra:
+        raise
+    except Exception:
+        return False
+
+
 def oracle(case, before, obs, clean_after, limit):
     """the clauses of C09 that concern ONE faulty pass, on the implementation's observations alone.
     `before`: objects before the pass; `clean_after`: objects after a fault-free pass from `before`."""
@@ -298,7 +363,7 @@ def oracle(case, before, obs, clean_after, limit):
             bad.append(f"step {l}: condition {typ}/Ready although its task ended '{top.get(l)}'")
             continue
         mine = calls_of.get(l, [])
-        if any(e["fault"] is not None for e in mine):
+        if any(e["fault"] is not None and not natural_404(e, before) for e in mine):
             bad.append(f"step {l}: condition {typ}/Ready although one of its API calls failed")
         if any(reason_of.get(d) != "Ready" for d in s["deps"]):
             bad.append(f"step {l}: condition {typ}/Ready although a dependency is not Ready")
@@ -307,6 +372,15 @@ def oracle(case, before, obs, clean_after, limit):
         if calls_of.get(s["label"]) and any(reason_of.get(d) != "Ready" for d in s["deps"]):
             bad.append(f"step {s['label']} issued API requests although a dependency did not succeed")
     # -- containment: the affected step is an error, its dependents are not run, the overall outcome is not Ok
+    log = obs["cluster"].log
+    faulted = next((e for e in log if e["fault"] is not None), None)
+    if faulted is not None and natural_404(faulted, before):
+        site = None     # "404" to the GET of an object that is not there is the truthful answer, not a fault
+    if faulted is not None and faulted["method"] == "GET" and faulted["fault"] != 404:
+        later = [e["method"] for e in log[faulted["i"] + 1:] if e["tag"] == faulted["tag"]]
+        if later:
+            bad.append(f"the load of {faulted['name']} failed ({faulted['fault']}) but the same evaluation went on to "
+                       f"{later}: a failed load must not be read as 'absent'")
     if site is not None and site["path"]:
         l = site["path"][0][0]
         if reason_of.get(l) not in ERR_REASONS:
@@ -423,7 +497,7 @@ def size(case):
     return sum(len(w["steps"]) for w in case["defs"])
 
 
-def sweep_case(ck, drv, r, case, tier, tag, only=None):
+def sweep_case(ck, drv, r, case, tier, tag, only=None, info=None):
     """the fault sweep for one workflow.  A fault sequence is {"start": k, "faults": [[i, kind], …]}: k fault-free
     passes, then one faulty pass per entry (API-call index i of that pass fails with `kind`), then fault-free passes.
     Returns the violations found as [(sequence, what)]."""
@@ -463,6 +537,8 @@ def sweep_case(ck, drv, r, case, tier, tag, only=None):
         obs = run_pass(prep, objects, faults={i: kind})
         ck.evaluated()
         site = fault_site(obs)
+        if info is not None:
+            info["sites"].append(None if site is None else {**site, "present": obj_key(site["name"]) in objects})
         if site is not None:
             ck.count(f"fault:{site['method']}:{kind}")
             ck.nontriv(f"{site['method']}:{kind}:{'nested' if site['path'] and len(site['path']) > 1 else 'top'}:"
@@ -762,24 +838,46 @@ def lookup_scenarios(ck, only=None):
     return out
 
 
-def report(ck, case, found):
-    """shrink the workflow (the oracle alone decides while shrinking) and record the violation"""
-    seq, what = found[0]
+def report(ck, case, found, corpus=None):
+    """record what a workflow's sweep found: one record per failing fault sequence, shrunk first (the oracle alone
+    decides while shrinking).  A sequence of the KNOWN class is shrunk INSIDE the class and goes through the
+    classifier; any other one is shrunk OUTSIDE it (so that minimising can never turn a violation into the finding)."""
+    seqs, seen = [], set()
+    for seq, what in found:
+        k = json.dumps(seq, sort_keys=True)
+        if k not in seen:
+            seen.add(k)
+            seqs.append((seq, what))
+    known_done = KNOWN_CLASS in ck.known_hits
+    for seq, what in seqs:
+        if len(ck.violations) >= 3:
+            break
+        known = in_known_class({"case": case, "faults": seq})
+        if known and known_done and corpus is None:
+            ck.count("known-finding-occurrences")
+            continue
 
-    def fails(c):
-        try:
-            return bool(sweep_case(Check("C09", "shrink"), None, rng("shrink"), c, "quick", "shrink",
-                                   only=[seq] if seq and seq.get("faults") else None))
-        except Exception:
-            return False
+        def fails(c):
+            try:
+                vc = {"case": c, "faults": seq}
+                if known:
+                    return in_known_class(vc)
+                return bool(replay_sequence(c, seq)[0]) and not in_known_class(vc)
+            except Exception:
+                return False
 
-    small = c01.shrink(case, fails) if len(ck.violations) < 2 else case
-    if small is not case:
-        again = sweep_case(Check("C09", "shrink"), None, rng("shrink"), small, "quick", "shrink",
-                           only=[seq] if seq and seq.get("faults") else None)
-        if again:
-            seq, what = again[0]
-    ck.violate({"case": c01.compact(small), "faults": seq}, what)
+        small = c01.shrink(case, fails) if (len(ck.violations) < 2 and corpus is None) else case
+        if small is not case:
+            again = replay_sequence(small, seq)[0]
+            if again:
+                what = again[0][1]
+        rec = {"case": c01.compact(small), "faults": seq}
+        if corpus:
+            rec["corpus"] = corpus
+        ck.violate(rec, what)
+        if known:
+            known_done = True
+            ck.count("known-finding-occurrences")
 
 
 def run(tier: str) -> int:
@@ -805,6 +903,7 @@ def run(tier: str) -> int:
         "expressions range over the generator's shapes; workflows are those prepare_workflow accepts",
     ]
     wf_run.check_constants()
+    ck.classifiers[KNOWN_CLASS] = in_known_class
     ck.prove(extractors=["WorkflowFaultConsts"])
     drv = LeanDriver("C09")
     r = rng("c09")
@@ -816,7 +915,7 @@ def run(tier: str) -> int:
             found = sweep_case(ck, drv, r, case, tier, "corpus", only=only)
             ck.count("corpus")
             if found:
-                ck.violate({"case": c01.compact(case), "faults": found[0][0], "corpus": f.name}, found[0][1])
+                report(ck, case, found, corpus=f.name)
         for kind, what in lookup_scenarios(ck)[:4]:
             ck.violate({"scenario": "kind-lookup", "fault": kind}, what)
         n = 40 if tier == "quick" else 500
